@@ -5,3 +5,18 @@ claim("C01",
       "bounded exhaustive schedule enumeration (deviation-bounded, stateless re-execution of the real code)",
       "every fault schedule with at most d deviations (drop, duplicate, delay 1/2 ticks, late duplicate, batch reversal, skipped drain) over a 5-tick horizon, for every script x tick-length x direction scenario, executed on the real RenetClient/RenetServer; prefix oracle after every drain and completion after a fault-free tail",
       TB, "DESIGN.md §5 C01")
+
+claim("C02",
+      "bounded exhaustive schedule enumeration (deviation-bounded, stateless re-execution of the real code)",
+      "every fault schedule with at most d deviations (incl. the application draining after every single arrival / not at all) over a 5-tick horizon per scenario on the real endpoints; at-most-once + provenance oracle after every drain, no-head-of-line-blocking oracle (complete => yielded by the next drain), completion after a fault-free tail",
+      TB, "DESIGN.md §5 C02")
+
+claim("C08",
+      "bounded exhaustive schedule enumeration + explicit-state DFS of the ack range list (real code, reference set model)",
+      "M2 over data and ack packet fates: a message leaves the unacknowledged set / returns its bytes only if every packet needed to rebuild it was handed to the peer; M1 over all interleavings of arrivals of every ordered subset of a small sequence universe, flushes and acks-of-acks, and continuations from prebuilt 63/64/65-range states: ack packets only cover sequence numbers that arrived",
+      TB, "DESIGN.md §5 C08")
+
+claim("C09",
+      "bounded exhaustive schedule enumeration (deviation-bounded, stateless re-execution of the real code)",
+      "M2 over ample-budget, tight-budget (three gated send cycles) and 1-second-tick unreliable-fragment scenarios: accounted bytes of all four channel kinds within [0,max] after every library call, no unreliable reservation older than 3 s after update, zero residue and full budget at the quiescent end, no budget disconnect for in-budget traffic",
+      TB, "DESIGN.md §5 C09")
